@@ -28,6 +28,10 @@ R_PROP, R_TIE = 2 | 4 | 8 | 16 | 32 | 64 | 128, 1
 S_FLAGS = {1: "tie:SplitAt-vs-polyline-model", 2: "prop:piece-segment-not-a-subcurve", 4: "prop:pieces-do-not-tile-the-input",
            8: "prop:cut-not-at-requested-arc-length", 16: "prop:Length-outside-enclosure+-1%", 64: "prop:panic"}
 S_PROP, S_TIE = 2 | 4 | 8 | 16 | 64, 1
+A_FLAGS = {1: "tie:generated-arc-inconsistent", 2: "prop:arc-piece-not-on-the-same-ellipse/direction", 4: "prop:arc-pieces-do-not-chain-start-to-end",
+           8: "prop:arc-cut-off-the-ellipse-or-not-advancing", 16: "prop:arc-piece-large-flag-contradicts-its-end-points", 32: "prop:arc-piece-count",
+           64: "prop:arc-piece-lengths(Go's own)-do-not-add-up-or-cut-not-within-1%", 128: "prop:panic"}
+A_PROP, A_TIE = 2 | 4 | 8 | 16 | 32 | 64 | 128, 1
 KNOWN_PANIC = "theta not in elliptic arc range for splitting"   # recorded under C10/C13; never re-reported here
 
 
@@ -49,11 +53,12 @@ def run(ctx):
     rows = vlib.coq_eval_shards("c09-%d" % ctx.seed, HEADER, [c["coq"] for c in cases], shard=ctx.n(25, 100))
     flagcount = {}
     prop_fail, tie_fail = [], []
-    nr = ns = npieces = ncurved = nsamples = 0
+    nr = ns = na = napieces = npieces = ncurved = nsamples = 0
     nontrivial, distinct = set(), set()
     for c, row in zip(cases, rows):
         isr = c["desc"]["kind"] == "R"
-        names, pm, tm = (R_FLAGS, R_PROP, R_TIE) if isr else (S_FLAGS, S_PROP, S_TIE)
+        isa = c["desc"]["kind"] == "A"
+        names, pm, tm = (R_FLAGS, R_PROP, R_TIE) if isr else ((A_FLAGS, A_PROP, A_TIE) if isa else (S_FLAGS, S_PROP, S_TIE))
         key = json.dumps([c["desc"]["kind"], c["desc"]["path"], c["desc"].get("cuts")])
         distinct.add(key)
         fl = row[0]
@@ -61,6 +66,11 @@ def run(ctx):
             nr += 1
             nsamples += row[2]
             if row[1] >= 3:
+                nontrivial.add(key)
+        elif isa:
+            na += 1
+            napieces += row[1]
+            if row[1] >= 2:
                 nontrivial.add(key)
         else:
             ns += 1
@@ -96,14 +106,22 @@ def run(ctx):
             return "arclength-accuracy-cusp-loop-inflection"
         return None
 
+    def known_key_arc(c, fl, row):
+        # accuracy only: every piece is an arc of the same ellipse in the same direction, chained, cut points on the ellipse and advancing,
+        # flags consistent, piece count right (flags 2..32 clear); Go's own lengths put a cut at most 50/1000 of Length() off
+        if c["desc"]["kind"] == "A" and fl == 64 and 0 <= row[2] <= 50:
+            return "arc-arclength-inversion-accuracy"
+        return None
+
     rest = []
     for (c, fl, names, pm), row in [(t, rows[cases.index(t[0])]) for t in prop_fail]:
-        k = known_key(c, fl & pm, row)
+        k = known_key_arc(c, fl & pm, row) if c["desc"]["kind"] == "A" else known_key(c, fl & pm, row)
         if k and k in known:
             w = worst.setdefault(k, [c, 0, 0, 0])
             w[1] += 1
-            if max(row[3], row[4]) >= w[2]:
-                w[0], w[2] = c, max(row[3], row[4])
+            dv = row[2] if c["desc"]["kind"] == "A" else max(row[3], row[4])
+            if dv >= w[2]:
+                w[0], w[2] = c, dv
         else:
             rest.append((c, fl, names, pm))
     for k, (c, n, dev, _) in worst.items():
@@ -136,7 +154,7 @@ def run(ctx):
                                             "classical facts not formalised: inscribed polyline <= arc length <= control polygon length"]),
         evaluations=len(cases), distinct_nontrivial=len(nontrivial), distinct=len(distinct),
         rule="one evaluation = one path run through Reverse (x3), Length, Bounds, Closed (R) or through Length and SplitAt with a set of cut positions (S), judged by the Coq model/checker; distinct by (kind, path, cuts); non-trivial: R path with >= 3 records, S with >= 2 pieces or a curved piece segment",
-        r_cases=nr, s_cases=ns, s_pieces=npieces, s_curved_piece_segments_certified=ncurved, winding_samples=nsamples,
+        r_cases=nr, s_cases=ns, arc_split_cases=na, arc_pieces_judged=napieces, s_pieces=npieces, s_curved_piece_segments_certified=ncurved, winding_samples=nsamples,
         masked_known_panics=len(masked), known_finding_cases=n_known,
         traces_validated_against_impl=len(cases), disagreements_checked=len(prop_fail) + len(tie_fail),
         families=fams, flag_counts=flagcount,
@@ -146,4 +164,4 @@ def run(ctx):
     return ctx.finish("proof", cov, [
         "coordinates on dyadic grids; Reverse tie is exact data equality; SplitAt tie/oracle slack 2^-30 mm per coordinate",
         "1 % is the accuracy the code documents for its quadrature: checked against enclosures (N=16 subdivisions, sqrt to 2^-40), not proved",
-        "elliptical arcs: Reverse only"])
+        "elliptical arcs: Reverse, and SplitAt on single arcs with exact geometry (pieces judged against the ellipse by orientation predicates; arc length itself only through Go's own Length of the pieces)"])
